@@ -65,7 +65,6 @@ Proof.
       { constructor; auto.
         - left. repeat split; eauto.
         - repeat split.
-        - reflexivity.
         - apply sfacts_found; assumption. }
       rewrite sl_known_tail in E.
       * apply (K_any hstate dec_field enc_field enc_set_max cfg c s ph fr ec' c1 st _ _ KI Kok E).
